@@ -24,7 +24,7 @@ type c16CLICase struct {
 	Orf     string   `json:"orf,omitempty"`
 	Reverse bool     `json:"reverse,omitempty"`
 	CutEnd  bool     `json:"cutend,omitempty"`
-	Code    string   `json:"code,omitempty"` // standard | mitov | mitoi
+	Code    string   `json:"code,omitempty"`  // standard | mitov | mitoi
 	Flags   []string `json:"flags,omitempty"` // among len-cutoff, match-cutoff, match, mismatch, gap-open, gap-extend
 	LenCut  float64  `json:"lencut,omitempty"`
 	MatCut  float64  `json:"matchcut,omitempty"`
